@@ -189,7 +189,7 @@ Proof.
   assert (Hhead : forall rest, read_rc g p T v attr k (enc_rc c ++ rest) =
      match v_rc v k with
      | Some m => match read_attributes g p (rt_rc T) m no_nested (enc_pattrs (snd c) ++ rest) with Err => Err
-                 | Ok (st, s3) => Ok (ERc attr k (fst (fst c)) (snd (fst c)) (Some (loop_events (rt_rc T) st)), s3) end
+                 | Ok (st, s3) => Ok (ERc attr k (fst (fst c)) (snd (fst c)) (Some (loop_events (rt_rc T) m st)), s3) end
      | None => if rt_break_rc T then match skip_attributes (enc_pattrs (snd c) ++ rest) with Err => Err | Ok s3 => Ok (ERc attr k (fst (fst c)) (snd (fst c)) None, s3) end
                else Ok (ERc attr k (fst (fst c)) (snd (fst c)) None, enc_pattrs (snd c) ++ rest)
      end).
@@ -308,7 +308,9 @@ Lemma no_special_leaf T g p v ct m kc nest : special_step T g p v ct KLeaf m kc 
 Proof. intros a st. destruct a; cbn [wf_attr_b is_method is_class andb not_plain]; intros; try discriminate; contradiction. Qed.
 
 Lemma ctx_ok_arms ct except : ctx_ok ct except = true -> arms_ok (t_interests ct) [] (t_arms ct) = true.
-Proof. intros H. apply andb_prop in H as [H _]. exact H. Qed.
+Proof. intros H. apply andb_prop in H as [H _]. apply andb_prop in H as [H _]. exact H. Qed.
+Lemma ctx_ok_whole ct except : ctx_ok ct except = true -> whole_ok ct = true.
+Proof. intros H. apply andb_prop in H as [_ H]. exact H. Qed.
 
 (* the Code attribute of a method *)
 Lemma code_step_ok T g p v k m : tok T -> special_step T g p v (rt_method T) KMethod m (v_code v k) (method_nested g p T v k).
@@ -392,7 +394,7 @@ Proof.
   assert (Hhead : forall rest, read_field g p T v k (enc_member mb ++ rest) =
      match v_field v k with
      | Some m => match read_attributes g p (rt_field T) m no_nested (enc_attrs (m_attrs mb) ++ rest) with Err => Err
-                 | Ok (st, s4) => Ok (EField k (m_access mb) (m_name mb) (m_desc mb) (Some (loop_events (rt_field T) st)), s4) end
+                 | Ok (st, s4) => Ok (EField k (m_access mb) (m_name mb) (m_desc mb) (Some (loop_events (rt_field T) m st)), s4) end
      | None => if rt_break_field T then match skip_attributes (enc_attrs (m_attrs mb) ++ rest) with Err => Err | Ok s4 => Ok (EField k (m_access mb) (m_name mb) (m_desc mb) None, s4) end
                else Ok (EField k (m_access mb) (m_name mb) (m_desc mb) None, enc_attrs (m_attrs mb) ++ rest)
      end).
@@ -414,7 +416,7 @@ Proof.
   assert (Hhead : forall rest, read_method g p T v k (enc_member mb ++ rest) =
      match v_method v k with
      | Some m => match read_attributes g p (rt_method T) m (method_nested g p T v k) (enc_attrs (m_attrs mb) ++ rest) with Err => Err
-                 | Ok (st, s4) => Ok (EMethod k (m_access mb) (m_name mb) (m_desc mb) (Some (loop_events (rt_method T) st)), s4) end
+                 | Ok (st, s4) => Ok (EMethod k (m_access mb) (m_name mb) (m_desc mb) (Some (loop_events (rt_method T) m st)), s4) end
      | None => if rt_break_method T then match skip_attributes (enc_attrs (m_attrs mb) ++ rest) with Err => Err | Ok s4 => Ok (EMethod k (m_access mb) (m_name mb) (m_desc mb) None, s4) end
                else Ok (EMethod k (m_access mb) (m_name mb) (m_desc mb) None, enc_attrs (m_attrs mb) ++ rest)
      end).
@@ -482,7 +484,7 @@ Proof.
       match read_members (member_reader T (rt_honours_fields T) (interested (v_class v) FIELDS) (read_field g (h_pool h) T v))
               (enc_members (c_fields c) ++ enc_members (c_methods c) ++ enc_attrs (c_attrs c) ++ rest) with Err => Err | Ok (fs, s2) =>
       match read_members (member_reader T (rt_honours_methods T) (interested (v_class v) METHODS) (read_method g (h_pool h) T v)) s2 with Err => Err | Ok (ms, _) =>
-        Ok (Some (loop_events (rt_class T) st ++ fs ++ ms), s_end)
+        Ok (Some (loop_events (rt_class T) (v_class v) st ++ fs ++ ms), s_end)
       end end end
     else
       if rt_break_class T then match skip_attributes (enc_attrs (c_attrs c) ++ rest) with Err => Err | Ok s_end => Ok (None, s_end) end
